@@ -4,9 +4,11 @@ import "github.com/gopher-fleece/runtime"
 
 // BetaBody is the request body of the beta controller
 type BetaBody struct {
-	Count int    `json:"count" validate:"gte=1"`
-	Note  string `json:"note,omitempty"`
-	Rank  Rank   `json:"rank" validate:"oneof=low"`
+	Count int      `json:"count" validate:"gte=1"`
+	Note  string   `json:"note,omitempty" validate:"oneof=sort=asc sort=desc"`
+	Ratio float64  `json:"ratio" validate:"gt=0,lte=1"`
+	Tags  []string `json:"tags" validate:"min=1,max=5"`
+	Rank  Rank     `json:"rank" validate:"oneof=low"`
 }
 
 // A constant of the Rank enumeration declared in another file than the type itself
@@ -42,7 +44,7 @@ func (c *BetaController) ListBeta(filter []string, rank Rank) ([]BetaBody, error
 // @Path(id, { name: "thingId" })
 // @FormField(label, { name: "label_text", validate: "required" })
 // @FormField(weight)
-// @FormField(level, { validate: "oneof=low" })
+// @FormField(level, { name: "lvl", validate: "oneof=low" })
 // @Response(202) Accepted
 // @ErrorResponse(409) Conflict
 // @ErrorResponse(422) Unprocessable
